@@ -69,5 +69,43 @@ def run(ctx):
         bs = ctx.bodies_of(n)
         got = {v.rsplit("::", 1)[1] for x in bs for v in x.fn.vars if "ResourceConstraintsError::" in v}
         ctx.ob("constraints|validate-rejections", {"UnexpectedNonZeroBalanceOfUnspecifiedResource", "ResourceConstraintFailed"} <= got, f"validate can raise {sorted(got)}", F.fns[n].loc())
+    ctx.rule("T8 necessary comparisons of GeneralResourceConstraint::is_valid_independent_of_resource_type: a constraint is declared valid only "
+             "after (1) lower vs upper bound, (2) number of required ids vs upper bound and (3) lower bound vs the allow-list size have each "
+             "been compared (operands by origin, any comparison form) with an arm that cannot reach `true`; required ids are tested to be a "
+             "subset of the allow-list — dropping one declares an unsatisfiable constraint valid")
+    nv = M + "GeneralResourceConstraint::is_valid_independent_of_resource_type"
+    if ctx.anchor(nv):
+        b = ctx.body(nv)
+        trues = [i for i in range(b.n) for st in b.stmts(i) if st["k"] == "=" and st["p"] == [0] and st["rv"]["k"] == "use" and st["rv"]["o"][0] == "k"
+                 and str(st["rv"]["o"][1].get("v")) in ("1", "true")]
+
+        def tags(op):
+            out = set()
+            for x in b.origins(op, deep=True):
+                if x.kind == "param" and x.proj:
+                    if ".lower_bound" in x.proj: out.add("lower")
+                    if ".upper_bound" in x.proj: out.add("upper")
+                    if ".required_ids" in x.proj: out.add("required")
+                    if "@Allowlist" in x.proj: out.add("allowlist")
+            return out
+        found = {}
+        for bb, tru, fal, si in b.call_bool_guards(r"PartialOrd(<[^>]*>)?(>)?::(gt|lt|ge|le)$"):
+            for a in si["atoms"]:
+                if a.kind == "call" and re.search(r"::(gt|lt|ge|le)$", a.what):
+                    t0, t1 = tags(a.extra["args"][0]), tags(a.extra["args"][1])
+                    rejecting = any(not (b.reach((s_,)) & set(trues)) for s_ in (tru, fal) if s_ is not None)
+                    for pair in (("lower", "upper"), ("required", "upper"), ("lower", "allowlist")):
+                        if ((pair[0] in t0 and pair[1] in t1 and not (pair[1] in t0)) or (pair[1] in t0 and pair[0] in t1 and not (pair[1] in t1 and pair[0] in t0))) and rejecting:
+                            # the comparison relates exactly this pair (an operand mixing both sides does not count)
+                            if not ({pair[0], pair[1]} <= t0 or {pair[0], pair[1]} <= t1):
+                                found.setdefault(pair, []).append(bb)
+        ctx.ob("is_valid|true-exits", len(trues) >= 1, f"{len(trues)} `true` result site(s)", b.loc())
+        for pair, what in ((("lower", "upper"), "lower bound vs upper bound"), (("required", "upper"), "required-id count vs upper bound"),
+                           (("lower", "allowlist"), "lower bound vs allow-list size")):
+            ctx.ob(f"is_valid|compares-{pair[0]}-with-{pair[1]}", pair in found,
+                   f"{what}: rejecting comparison at bb{found.get(pair)}" if pair in found else f"{what}: NO rejecting comparison between these two quantities", b.loc())
+        sub = b.call_bool_guards(r"::is_subset$")
+        ctx.ob("is_valid|required-subset-of-allowlist", any(not (b.reach((fal,)) & set(trues)) for bb, tru, fal, si in sub if fal is not None),
+               f"{len(sub)} is_subset test(s) with a rejecting arm", b.loc())
     ctx.assume("the iff itself (each comparison is the right one, normalisation preserves the accepted set, declared-valid implies satisfiable) is "
                "value-level and NOT decided; only that every constraint kind is enforced by some rejecting path")
